@@ -247,6 +247,7 @@ func (ph *ptraceHandle) handle(pid int, wstatus unix.WaitStatus) (status runner.
 				if trapCause == 0 && ph.execved {
 					// not a ptrace event but a genuine SIGTRAP (int3, kill): deliver it
 					unix.PtraceCont(pid, int(stopSig))
+					verifEvent("cont", "pid", pid, "sig", int(stopSig), "why", "sigtrap")
 					return
 				}
 			}
